@@ -212,6 +212,93 @@ def l2(cx):
     cx.need(ndesc >= 30, f"only {ndesc} struct descriptors enumerated")
 
 
+@rule("L2c", ["C09", "C01", "C06"], "struct copy-construction (field-wise path): every field of the copy lands where the documented layout puts it, for constructor-made and view-made sources")
+def l2c(cx):
+    """The field-wise arm of Struct._to_buffer is the only arm a struct containing references may take when
+    it is copied (G1).  Its source is another handle: its plan (`_inspect_args(instance)`) reuses the
+    source's cached offsets.  A view's cache holds, for the first dynamic field, whatever word sits at the
+    field's class offset (not an offset): the writer may consult the cache only for fields that have an
+    offset word.  Evaluated for every field pattern, with a constructor-made and a view-made source."""
+    m = cx.m
+    check_docs(m, cx)
+    lab = Lab(m)
+    I, W = lab.I, lab.W
+    CPY = Poly.atom("cpy")
+    ndesc = 0
+    for kinds in struct_descriptors(cx.tier):
+        label = "".join(kinds)
+        for srckind in ("handle", "view"):
+            ndesc += 1
+            out = {}
+
+            def thunk():
+                fields = []
+                for i, k in enumerate(kinds):
+                    sz = STATIC_SIZES[i % len(STATIC_SIZES)] if k == "S" else None
+                    # the last field carries a reference: the class has _has_refs and copies field-wise
+                    fields.append((f"f{i}", W.desc(f"f{i}", sz, has_update=(k == "D"), has_refs=(i == len(kinds) - 1))))
+                cls = lab.struct("SR", fields)
+                out["cls"] = cls
+                arg = {f"f{i}": Opaque(f"v{i}") for i in range(len(kinds))}
+                handle = I.call(cls, [arg], {"_buffer": W.buffer})
+                src = handle
+                if srckind == "view":
+                    src = I.call(I.getattr(cls, "_from_buffer"), [W.buffer, I.getattr(handle, "_offset")], {})
+                out["src_off"] = I.getattr(src, "_offset")
+                n0 = len(I.effects)
+                info = I.call(I.getattr(cls, "_inspect_args"), [src], {})
+                out["info"] = info
+                I.call(I.getattr(cls, "_to_buffer"), [W.buffer, Sym(CPY), src, info], {})
+                out["effects"] = list(I.effects[n0:])
+                out["mem"] = dict(I.mem)
+                return cls
+
+            res = _run(lab, thunk)
+            anchor = "struct::Struct._to_buffer"
+            if len(res) != 1 or res[0]["exc"] is not None:
+                e = res[0]["exc"]
+                cx.bad(None, construct=f"struct[{label}] copy from {srckind}", detail=f"evaluation raises {e.etype if e else 'fork'}: {e.msg if e else res[0]['conds']}", anchor=anchor, sub="eval")
+                continue
+            cls = out["cls"]
+            cx.need(bool(cls.attrs.get("_has_refs")), "L2c: the probe class does not get _has_refs (G1b decides propagation)")
+            sizes = [STATIC_SIZES[i % len(STATIC_SIZES)] if k == "S" else None for i, k in enumerate(kinds)]
+            spec = struct_layout(sizes, lambda i: Poly.atom(f"n_f{i}"), slot)
+            eff = out["effects"]
+            probs = []
+            if any(e.kind == "update_from_xbuffer" for e in eff):
+                probs.append("a struct with references is byte-copied (relative reference words duplicated verbatim)")
+            childs = {e.name: e for e in eff if e.kind == "child_write"}
+            writes = [e for e in eff if e.kind == "write"]
+            if spec["dynamic"]:
+                sz = I.getattr(out["info"], "size")
+                if pol(sz) != spec["total"]:
+                    probs.append(f"planned size of the copy is {sz!r}, source/documented total {spec['total']!r}")
+                w0 = [w for w in writes if w.pos == CPY]
+                if not w0 or pol(w0[-1].value) != spec["total"]:
+                    probs.append(f"size word of the copy holds {w0[-1].value if w0 else None!r}, documented {spec['total']!r}")
+            for i in range(len(kinds)):
+                e = childs.get(f"f{i}")
+                if e is None:
+                    probs.append(f"field {i} of the copy is never written")
+                elif e.pos != CPY + spec["pos"][i]:
+                    probs.append(f"field {i} ({kinds[i]}{', first dynamic field' if spec['dyn'] and i == spec['dyn'][0] else ''}) of the copy is written at {e.pos!r}, documented cpy + {spec['pos'][i]!r}")
+            for i in spec["dyn"][1:]:
+                wv = [w for w in writes if w.pos == CPY + spec["class_offset"][i]]
+                if not wv or pol(wv[-1].value) != spec["pos"][i]:
+                    probs.append(f"offset word of field {i} in the copy holds {wv[-1].value if wv else None!r}, documented {spec['pos'][i]!r}")
+            # header words may be written only at documented header positions, or be overwritten by the field written there afterwards
+            hdr = {repr(CPY)} | {repr(CPY + spec["class_offset"][i]) for i in spec["dyn"]}
+            for w in writes:
+                if repr(w.pos) not in hdr:
+                    probs.append(f"stray header write at {w.pos!r}")
+            if probs:
+                for msg in probs[:3]:
+                    cx.bad(None, construct=f"struct[{label}] copy from {srckind}-made source: {msg}", detail="a copy must equal its source field by field: the field-wise writer and its plan must place every field at the documented position", anchor=anchor, sub=srckind)
+            else:
+                cx.ok(None, construct=f"struct[{label}] copy from {srckind}-made source: every field at the documented position", anchor=anchor, trivial=("D" not in kinds), sub=srckind)
+    cx.need(ndesc >= 60, f"only {ndesc} struct copy descriptors enumerated")
+
+
 # ------------------------------------------------------------------------------------------ L1 arrays
 DIMS = [2, 3, 2]
 STATIC_DIMS = [2, 3, 4]
@@ -427,7 +514,7 @@ def l1b(cx):
 STRINGS = ["", "a", "abcdefg", "abcdefgh", "abcdefghijklmno", "héllo wörld", "日本語", "x" * 23, "x" * 24]
 
 
-@rule("L6", ["C01", "C03", "C05"], "string: planned size, written extent, NUL termination and padding agree with the documented layout")
+@rule("L6", ["C01", "C03", "C05", "C11"], "string: planned size, written extent, NUL termination and padding agree with the documented layout")
 def l6(cx):
     m = cx.m
     lab = Lab(m)
